@@ -5,6 +5,7 @@
 mod util;
 mod vals;
 mod c13;
+mod c05;
 mod c14;
 mod c16;
 mod mpc_common;
@@ -54,6 +55,7 @@ fn main() {
     let mut run = Run::new(&prop, seed, tier);
     match (mode.as_str(), prop.as_str()) {
         ("corr", "C13") => c13::corr(&mut run),
+        ("corr", "C05") => c05::corr(&mut run),
         ("corr", "C14") => c14::corr(&mut run),
         ("corr", "C16") => c16::corr(&mut run),
         ("corr", "C01") => c01::corr(&mut run),
